@@ -2475,6 +2475,9 @@ fn scenario_http(sc: &str) -> Result<Violations, String> {
     // ---- one entry per (non-blank) command, in order
     chk(&mut v, "C20.one-entry-per-command", replies.len() == real.len());
     if replies.len() != real.len() { return Ok(v); }
+    // ---- ... also for the client, which receives the entries joined by ';' (start_http_client) and splits them again: no entry produced by these commands - a value, an error
+    // text, `empty` - contains the separator (the stored values of this world do not)
+    chk(&mut v, "C20.reply-splits-into-one-entry-per-command", real.is_empty() || replies.join(";").split(';').count() == real.len());
     // ---- each entry is produced by its own command: replay the same commands one by one on a fresh, identical world and take what each produced
     let w2 = mk_world(0);
     let (mut c2, mut rx2) = Client::new_empty_and_receiver();
@@ -2498,7 +2501,7 @@ fn scenario_http(sc: &str) -> Result<Violations, String> {
 }
 fn all_http_scenarios() -> Vec<String> {
     let cmds = ["auth u p", "auth u wrong", "use-db d tok", "use-db d wrong", "use-db d usr ut", "get secret", "get-safe secret", "get public1", "set public1 y", "set-safe public1 0 z",
-        "set-safe public1 99 z", "remove sea", "increment sea 1", "increment secret 1", "keys", "create-db x xt", "get $$secret", "watch secret", "watch public1", "", " "];
+        "set-safe public1 99 z", "remove sea", "increment sea 1", "increment secret 1", "increment public1 1", "keys", "create-db x xt", "get $$secret", "watch secret", "watch public1", "", " "];
     let mut out = vec![];
     for a in cmds { out.push(a.to_string()); out.push(format!("{};", a));
         for b in cmds { out.push(format!("{};{}", a, b));
